@@ -196,6 +196,15 @@ def run_case(case: Case, rep, want=("C01", "C03"), timeout=20.0, validate=True):
                     for k, x in enumerate(effO[n].ravel()):
                         indep("%s|p%d|out:%s[%d]" % (case.name, pi, n, k), x,
                               {"case": case.name, "path": plabel, "what": "output", "of": n, "i": k, "pi": pi})
+            # the component leaves its inputs as it was given them: the framework re-uses the input vector for the next
+            # call (a complex-step / finite-difference column, a second compute without a data transfer)
+            for n in r.in_names:
+                if n not in ins or "inputs_after" not in res:
+                    continue
+                before, after = np.asarray(ins[n], dtype=object).ravel(), np.asarray(res["inputs_after"][n], dtype=object).ravel()
+                for k, (xb, xa) in enumerate(zip(before, after)):
+                    c03.append(oblig.Ob("%s|p%d|input:%s[%d]" % (case.name, pi, n, k), lhs=S(xa), rhs=S(xb), assume=passume, kind="indep",
+                                        meta={"case": case.name, "path": plabel, "what": "input", "of": n, "i": k, "pi": pi}))
             for key in r.jinfo:
                 if key in r.approx_keys:
                     continue
@@ -216,12 +225,22 @@ def run_case(case: Case, rep, want=("C01", "C03"), timeout=20.0, validate=True):
             for n in of_names:
                 off[n] = o
                 o += r.size(n)
+            has_abs = any(n_.op == "abs" for n_ in nodes)
             for (wn, wk, wv) in invars:
                 if wn in case.skip_wrt:
                     continue
                 dcol = diff.diff_all(outs_flat, wv, nodes)
+                dcs = diff.diff_all(outs_flat, wv, nodes, complex_step=True) if (has_abs and any((n_, wn) in r.cs_keys for n_ in of_names)) else None
                 for n in of_names:
                     key = (n, wn)
+                    if key in r.cs_keys and dcs is not None:
+                        # complex-step pairs: what the approximation reports (|u| contributes nothing) must be the derivative
+                        base = off[n]
+                        for i in range(r.size(n)):
+                            if dcs[base + i] is not dcol[base + i]:
+                                c01.append(oblig.Ob("%s|p%d|cs d %s[%d]/d %s[%d]" % (case.name, pi, n, i, wn, wk), lhs=dcs[base + i], rhs=dcol[base + i],
+                                                    assume=passume, meta={"case": case.name, "path": plabel, "of": n, "wrt": wn, "i": i, "j": wk,
+                                                                          "declared": True, "pi": pi, "complex_step": True}))
                     if key in r.approx_keys:
                         continue
                     if key not in dense:
